@@ -58,6 +58,11 @@ def run(ctx):
             sites.append((fn, n, e, g))
     ctx.units["FunctionDef::call sites"] = len(sites)
 
+    # ---------------- R5 the arity test that selects the calling protocol
+    ctx.rule("C13.R5", "whether a callback receives the index is decided by FunctionArity::can_accept(n), which accepts exactly n == k / n >= min / min <= n <= max: a function that declares the index as an optional parameter receives it", floor=3)
+    from rules import c04
+    c04.can_accept_rule(ctx, "C13.R5", core)
+
     # ---------------- R1 definition / this pairing
     ctx.rule("C13.R1", "at every FunctionDef::call site the function definition comes from get_function_def(F) and the `this` argument is that same value F (so a named function sees itself under its own name)", floor=16)
     per_ctx = {}
